@@ -522,7 +522,7 @@ func (p *Program) FieldAccesses(f *types.Var, skip func(fn *ssa.Function) bool) 
 					if FieldOf(x) != f {
 						continue
 					}
-					out = append(out, FieldAccess{Instr: x, Write: addrWritten(x, 0), Fresh: isFresh(x.X)})
+					out = append(out, FieldAccess{Instr: x, Write: addrWritten(x, 0), Fresh: isFresh(x.X) || p.freshByCallers(x.X, 0)})
 				case *ssa.Field:
 					if FieldOf(x) == f {
 						out = append(out, FieldAccess{Instr: x})
@@ -532,6 +532,68 @@ func (p *Program) FieldAccesses(f *types.Var, skip func(fn *ssa.Function) bool) 
 		}
 	}
 	return out
+}
+
+// freshByCallers: v is (a field of) a parameter of an unexported function or method, the function is only ever called statically, and
+// every call site hands it an object that is fresh there (allocated in the caller, or fresh by the caller's callers): a private helper
+// of a constructor works on an object nobody else can see yet.
+func (p *Program) freshByCallers(v ssa.Value, depth int) bool {
+	for {
+		if fa, ok := v.(*ssa.FieldAddr); ok {
+			v = fa.X
+			continue
+		}
+		break
+	}
+	par, ok := v.(*ssa.Parameter)
+	if !ok || depth > 2 {
+		return false
+	}
+	g := par.Parent()
+	obj, _ := g.Object().(*types.Func)
+	if obj == nil || obj.Exported() {
+		return false
+	}
+	idx := -1
+	for i, q := range g.Params {
+		if q == par {
+			idx = i
+		}
+	}
+	n := 0
+	for _, fn := range p.SrcFuncs {
+		for _, b := range fn.Blocks {
+			for _, in := range b.Instrs {
+				// the function used as a value: unknown callers
+				if _, isCall := in.(ssa.CallInstruction); !isCall {
+					for _, op := range in.Operands(nil) {
+						if f, isF := (*op).(*ssa.Function); isF && f == g {
+							return false
+						}
+					}
+					continue
+				}
+				ci := in.(ssa.CallInstruction)
+				if ci.Common().StaticCallee() != g {
+					for _, a := range ci.Common().Args {
+						if f, isF := a.(*ssa.Function); isF && f == g {
+							return false
+						}
+					}
+					continue
+				}
+				if _, isGo := in.(*ssa.Go); isGo {
+					return false
+				}
+				n++
+				a := ci.Common().Args
+				if idx < 0 || idx >= len(a) || !(isFresh(a[idx]) || p.freshByCallers(a[idx], depth+1)) {
+					return false
+				}
+			}
+		}
+	}
+	return n > 0
 }
 
 func isFresh(v ssa.Value) bool {
